@@ -113,6 +113,9 @@ void c05_inst_all(std::iostream& s, const String& name, std::vector<char>& buf, 
     DenseVector<DT, IT> a2(FileMode::fm_binary, name); DenseVector<DT, IT> a3(FileMode::fm_binary, s);
     SparseMatrixCSR<DT, IT> f2(FileMode::fm_mtx, name); SparseMatrixCSR<DT, IT> f3(FileMode::fm_mtx, s);
     f.write_out(FileMode::fm_mtx, name, true);
+    // the constructors that leave the arrays unallocated (empty-container clause)
+    SparseMatrixCSR<DT, IT> f4(3, 5); SparseMatrixBCSR<DT, IT, 2, 3> g4(3, 5); DenseVector<DT, IT> a4(Index(0)); DenseVectorBlocked<DT, IT, 3> b4(Index(0));
+    SparseVector<DT, IT> c4(Index(7)); DenseMatrix<DT, IT> e4(3, 5);
   }
   {
     typedef DenseVector<DT, IT> V;
